@@ -65,13 +65,14 @@ CLAIMED["C12"] = (SCHED_TECH + " + Go race detector runs of the harness",
     "channel (C12_enqueue), workers write only their slot and donec (C12_worker_only), the invalid flag a worker reads is never written after the job was released "
     "(C12_invalid_stable), and between a provider's successful end and its consumer's start lie, in order, the result send, its receipt and the dispatch "
     "(C12_values: the channel operations carrying the happens-before edge). Tie: trace conformance plus -race runs of the real scheduler (hooked executions, "
-    "concurrent Enqueue from several goroutines, early returns with jobs still running).",
-    SCHED_NOTE + " Go's memory-model rules for channels are taken as given; completeness of the list of shared locations rests on the race detector (a test). The generated plumbing (vN/pN variables, ran flags) is exercised under -race by the generated-code harness when built.", "DESIGN.md §7 C12")
+    "concurrent Enqueue from several goroutines, early returns with jobs still running) and of the generated flows and Parallel programs (variables per type, predicate flags, ran flags, Results copies) on their scenario plans.",
+    SCHED_NOTE + " Go's memory-model rules for channels are taken as given; completeness of the list of shared locations rests on the race detector (a test).", "DESIGN.md §7 C12")
 CLAIMED["C07"] = (SCHED_TECH,
     "C07_nil (nil only if every job started and ended successfully, none otherwise), C07_nil_ctx (context not cancelled when nil is returned), C07_error (a "
     "non-nil return is exactly one error: the context's, or the very error a job ended with; never the sentinel), C07_downstream (nothing transitively "
-    "downstream of a failed job starts), for every run of the fail-fast model. Tie: trace conformance incl. Wait's return value; error identities on the real scheduler.",
-    SCHED_NOTE + " Results targets untouched on error is a property of generated code (C02).", "DESIGN.md §7 C07")
+    "downstream of a failed job starts), for every run of the fail-fast model; for the generated jobs (Layer 2): nothing transitively downstream of a job that failed or never ran is run, and Results are written only when no job failed "
+    "(C07_generated_downstream, C07_generated_results_untouched). Tie: trace conformance incl. Wait's return value; error identities on the real scheduler; generated flows and Parallel programs under every single-failure scenario.",
+    SCHED_NOTE, "DESIGN.md §7 C07")
 CLAIMED["C08"] = (SCHED_TECH,
     "C08_runs (after completion every job whose dependencies all succeeded was started or skipped for its own context), C08_downstream, C08_errors (the error "
     "list is exactly one entry per received real error, each justified by what its job did, no sentinel, every failed job present), C08_once, C08_return, "
@@ -98,6 +99,9 @@ CLAIMED["C02"] = (
     "scheduler for every DAG, limit and interleaving): a job makes the same calls with the same arguments, assigns the same values and returns the same result in every execution in which it runs "
     "(C02_schedule_independent), every argument is the value the unique provider of its type assigned, already assigned when read (C02_arguments), each function is called at most once (C02_once), "
     "Results hold the same provider values in every execution where all jobs returned nil (C02_results), a task function is called only after its predicate returned true (C02_predicate_gate). "
+    "The denotational reading of the directive (FlowSemModel: each parameter receives what the unique provider of its type returned) is proved to be exactly what the generated jobs do: at its fuel it assigns to every job that runs, "
+    "in any execution, an outcome, and that outcome is the job's result, assigned values and call with its arguments (C02_semantics_is_the_generated_code, C02_results_are_the_dataflow; soundness for every fuel, completeness by "
+    "monotonicity and induction over the log order). Every flow the validator model of C14 accepts has unique providers (C02_accepted_flows_qualify). "
     "Partial on one clause, labelled so: independence of the listing order of the tasks is exercised (the generator shuffles tasks) but not proved. Tie: job graph of every generated function vs jdeps; "
     "calls with argument terms, results, returned error of every execution vs the model; the operational and the denotational model are cross-checked on every case.",
     GEN_NOTE, "DESIGN.md §7 C02")
@@ -105,7 +109,8 @@ CLAIMED["C15"] = (
     "Coq proof about a model of the generator's prologue (mentions recorded in a map, sorted by position, one assignment each) + correspondence: every generated prologue compared with the extracted model; evaluation logs of generated programs whose arguments are logged calls, reassigned bare identifiers and a clock-reading plain expression; locals named like generated identifiers",
     "Partial, labelled so. Proved for every list of mentions (any template traversal order, any repetitions, any map iteration order): the prologue is strictly sorted by source position, duplicate-free, contains exactly the "
     "mentioned expressions, depends only on their set, and evaluating it is evaluating the user's expressions in source order, each once (C15_sorted, C15_once, C15_exactly_the_mentioned, "
-    "C15_order_of_mentions_irrelevant, C15_source_order); distinct positions give distinct variables. Not theorems (Go scoping and runtime facts, observed on every run instead): evaluation on the calling goroutine "
+    "C15_order_of_mentions_irrelevant, C15_source_order); distinct positions give distinct variables; a free identifier of a hoisted expression is bound as in the source unless it is `err` or an earlier hoisted variable "
+    "(C15_no_capture; C15_capture_refuted is the model witness of F9). Not theorems (Go scoping and runtime facts, observed on every run instead): evaluation on the calling goroutine "
     "before any task starts, and absence of capture. Known finding F9 (an expression mentioning an enclosing `err`) is reported as KNOWN-FINDING from a named probe.",
     GEN_NOTE + " The capture clause is refuted by probe F9 on the unchanged tree (recorded, not repaired: the repair moves the prologue out of the closure and changes every generated file).", "DESIGN.md §7 C15")
 CLAIMED["C18"] = (
@@ -120,7 +125,8 @@ CLAIMED["C13"] = (
     "Coq proof about the splicing of generated text into the source and about a model of printImportAlias with its per-file maps + correspondence: differential run of the real printImportAlias; generated corpus with spelling variants through the real cff in base, source-map and -auto-instrument modes, type-checked without the cff tag; named probes",
     "Partial, labelled so. Theorems: the directive calls left in the output are exactly those of the untouched segments plus those of the generated texts; none remains when every call lies in a replaced interval and no argument "
     "expression contains one (C13_directive_count, C13_no_directive_left, C13_generated_text_clean; C13_nested_refuted is the model witness of known finding F8); generated imports get one name per path, stable, pairwise distinct, "
-    "never a name of the file's own imports, and the mangling loop terminates (C13_import_names, C13_import_loop_terminates). Not theorems: that the output type-checks and that the tool never panics are observed on every run.",
+    "never a name of the file's own imports, and the mangling loop terminates (C13_import_names, C13_import_loop_terminates); a package reference of a template reaches the file's import unless the closure or the "
+    "enclosing function declares that name (C13_template_reference; C13_shadow_refuted is the model witness of F7). Not theorems: that the output type-checks and that the tool never panics are observed on every run.",
     GEN_NOTE + " Known findings F7 (local identifier named like a package the generated code uses) and F8 (nested directive) are reported from named probes.", "DESIGN.md §7 C13")
 CLAIMED["C17"] = (
     "Coq proof that the unordered/random inputs of the generator (map of hoisted expressions, map of new imports, set of taken names, random magic token) cannot influence the text + correspondence: byte comparison of repeated cff processes and of -file selections in base and source-map mode",
@@ -137,7 +143,8 @@ CLAIMED["C20"] = (
 CLAIMED["C10"] = (
     "Coq proof over the operational model of generated programs applied to the embedding of cff.Parallel (one job per function and element; End job depending on all element jobs of its collection) + correspondence: generated Parallel programs compiled by the real cff, executed under scenario tables, compared with the model of their embedding",
     "Partial, labelled so. For every execution the scheduler can produce: each function/element job runs at most once and, when every job returned nil, exactly once (C10_at_most_once, C10_all_called); when an End hook runs every "
-    "element job of its collection is logged before it with result nil (C10_end_after_elements); if an element call failed, panicked or never ran the End hook never runs (C10_end_starved). Not theorems, tied by the correspondence: "
+    "element job of its collection is logged before it with result nil (C10_end_after_elements); if an element call failed, panicked or never ran the End hook never runs (C10_end_starved); every Parallel program's embedding "
+    "satisfies the hypothesis of these theorems (C10_every_parallel_qualifies) and an End job depends on every job producing one of its inputs (C10_end_depends_on_its_elements). Not theorems, tied by the correspondence: "
     "that element job i calls the function with (i, s[i]) / (k, m[k]) (per-iteration copies in the template) and that the generated jobs are the embedding: every element call logs its arguments, End hooks are ordered against element "
     "returns by sequence numbers under random sleeps, all signature shapes (index/no-index, ctx/no-ctx, error/no-error), sizes 0..8, nil collections, named slice types, generic enclosing functions, ContinueOnError.",
     GEN_NOTE + " The embedding used by the harness is compared with ParallelModel.par_flow (extracted) for every program.", "DESIGN.md §7 C10")
@@ -145,12 +152,13 @@ CLAIMED["C11"] = (GEN_TECH,
     "For every flow, scenario, task and valuation: predicate false => the task function is not called, its outputs are the zero values and it cannot fail the flow "
     "(C11_false_*); the function is invoked only if there is no predicate or it returned true (C11_invoked_only_if_true); the predicate is called with exactly the values of "
     "its own inputs as soon as they exist, independently of the task's inputs (C11_predicate_own_inputs); with FallbackWith the task never fails the flow, yields the fallback "
-    "values on error, panic or predicate panic, and the function's own results on success (C11_fallback_*). Tie: every generated execution's calls (with arguments), results and "
+    "values on error, panic or predicate panic, and the function's own results on success (C11_fallback_*); by FlowAdequacy the semantics these are stated on is what the generated jobs do on every schedule "
+    "(C11_on_every_schedule). Tie: every generated execution's calls (with arguments), results and "
     "returned error must equal the model's, for all single-failure scenarios of every generated flow.", GEN_NOTE, "DESIGN.md §7 C11")
 CLAIMED["C04"] = (GEN_TECH,
     "Partial, labelled so. Model level, for every flow/scenario/task: an unabsorbed task panic is reported as that task's PanicError (C04_panic_reported), a task fails only "
     "by what its own function or predicate did (C04_failure_is_own), FallbackWith absorbs (C04_fallback_absorbs), tasks are unaffected by other tasks' scenario entries "
-    "(C04_others_unaffected). That the real generated code recovers the panic, that errors.As yields a *cff.PanicError whose Value is the panic value (struct, error, string and "
+    "(C04_others_unaffected); by FlowAdequacy these hold of the generated jobs on every schedule (C04_on_every_schedule). That the real generated code recovers the panic, that errors.As yields a *cff.PanicError whose Value is the panic value (struct, error, string and "
     "*cff.PanicError values) and that the process survives is established per execution by the correspondence (flow tasks and predicates here; Parallel/Slice/Map functions in C10).",
     GEN_NOTE + " Process survival is a runtime fact no Gallina model exhibits; it is observed (the runner process must complete every planned execution).", "DESIGN.md §7 C04")
 
